@@ -35,6 +35,7 @@ type SolverStats struct {
 	Unsat    int64
 	Unknown  int64
 	Errors   int64
+	Retries  int64
 	WallNs   int64
 	Portf    int64
 	PortfWin map[string]int64
@@ -577,6 +578,17 @@ func (s *Solver) Check(lit *Term, neg bool) Result {
 	line, ok := s.readLine(s.timeout)
 	for ok && line == "" {
 		line, ok = s.readLine(s.timeout)
+	}
+	if !ok {
+		// no answer within the cap (the solver process was killed): a loaded machine makes 10 s queries out of
+		// 50 ms ones, so retry once in a fresh process with four times the cap before calling it unknown
+		atomic.AddInt64(&s.st.Retries, 1)
+		s.respawnReplay()
+		s.raw(cmd)
+		line, ok = s.readLine(4 * s.timeout)
+		for ok && line == "" {
+			line, ok = s.readLine(4 * s.timeout)
+		}
 	}
 	if ok {
 		switch {
